@@ -53,7 +53,8 @@ class C13(Check):
                            'lexer (LexerThread/LexerState copies, contextual + basic)', 'Lark.parse / parse_interactive'],
                   'simulated': ['which session advances next and with which operation (seeded plan)', 'rejected tokens as faults'],
                   'stubbed': [], 'not_exercised': ['custom lexers', 'Earley/CYK (no interactive parser)']}
-    ASSUMPTIONS = ['linear replay on the same Lark instance is the specification of a fork (the instance itself being a pure '
+    ASSUMPTIONS = ['configurations with a stateful post-lexer (Indenter) are not generated: PostLexConnector.lex() restarts postlex.process() on every call and the indentation state lives on the user\'s object, outside any session, so stepping or forking such a session is outside what copy() can promise',
+                   'linear replay on the same Lark instance is the specification of a fork (the instance itself being a pure '
                    'function is C10\'s subject)',
                    'internals (state_stack, value_stack, lexer offset) are compared only when the attributes exist; public results '
                    '(accepts, choices keys, tokens, feed_eof results, errors) always',
